@@ -174,8 +174,16 @@ func vhMessageV1(offset int64, ts int64, key, value []byte) []byte {
 func VH_C11_Fetch(version, withTopLevel int) {
 	code := vhInt16("partition_error")
 	var topErr int16
-	if withTopLevel == 1 {
+	if withTopLevel >= 1 {
 		topErr = vhInt16("top_level_error")
+	}
+	if withTopLevel == 2 {
+		// a top-level error as brokers send it: no topic in the response
+		vhAssume(topErr != 0)
+		vhFetchNoTopics = true
+	}
+	if version >= 5 {
+		vhFetchAborted = vhChoose("aborted_transactions_listed", 4) - 1
 	}
 	want := vhInt64("last_offset")
 	val := vhBytes("value", 2)
@@ -201,6 +209,9 @@ func VH_C11_Fetch(version, withTopLevel int) {
 		vhReach("c11-fetch-ok")
 	} else {
 		vhAssert(vhIsKafkaError(rerr), "fetch-reports-broker-error")
+		if withTopLevel == 2 {
+			vhAssert(errors.Is(rerr, Error(topErr)), "fetch-reports-the-top-level-error-code")
+		}
 		vhReach("c11-fetch-error")
 	}
 	err := rerr
